@@ -17,9 +17,24 @@ func (e *VariableExpr) Evaluate(engine *Engine, input interface{}, args []*State
 		return nil, err
 	}
 
+	// A variable stands for its definition, so a variable that is needed
+	// while it is being evaluated itself (directly, or through other
+	// variables) has no value. This has to be found right away rather than by
+	// the depth because every level can be more expensive than the one
+	// before: "X is .Families | .Document | X" doubles its input each time.
+	for _, name := range engine.variablesBeingEvaluated {
+		if name == e.Name {
+			return nil, fmt.Errorf("variable %s refers to itself", e.Name)
+		}
+	}
+
+	engine.variablesBeingEvaluated = append(engine.variablesBeingEvaluated,
+		e.Name)
 	engine.variableDepth++
 	defer func() {
 		engine.variableDepth--
+		engine.variablesBeingEvaluated =
+			engine.variablesBeingEvaluated[:engine.variableDepth]
 	}()
 
 	if engine.variableDepth > maxVariableDepth {
